@@ -20,7 +20,7 @@ def run_harness(ctx, binary, nshard, env):
         tf = os.path.join(ctx.scratch, "pool.%d.trace.ndjson" % k)
         e = dict(env)
         e.update(VERIF_TRACE=tf, VERIF_SHARD="%d/%d" % (k, nshard))
-        rc, out = run_test_bin(ctx, binary, "TestVerifPool", env=e, timeout=1500)
+        rc, out = run_test_bin(ctx, binary, "TestVerifPool", env=e, timeout=3600)
         if rc != 0 or not os.path.exists(tf):
             raise MachineryError("pool harness shard %d failed rc=%s\n%s" % (k, rc, out[-3000:]))
         rows = read_ndjson(tf)
